@@ -60,6 +60,50 @@ ISSUING = r"""
 """
 
 
+SIGNING = r"""
+    use rcgen::*;
+    // minimal TLV reader: (tag, header length, content length)
+    fn tlv(b: &[u8]) -> (u8, usize, usize) {
+        if b[1] < 0x80 { (b[0], 2, b[1] as usize) } else { let n = (b[1] & 0x7f) as usize; let mut l = 0usize; for k in 0..n { l = (l << 8) | b[2 + k] as usize; } (b[0], 2 + n, l) }
+    }
+    fn split(der: &[u8]) -> (Vec<u8>, Vec<u8>) {
+        let (_, h, _) = tlv(der);
+        let body = &der[h..];
+        let (_, th, tl) = tlv(body);
+        let tbs = body[..th + tl].to_vec();
+        let rest = &body[th + tl..];
+        let (_, ah, al) = tlv(rest);
+        let sig = &rest[ah + al..];
+        let (st, sh, sl) = tlv(sig);
+        assert_eq!(st, 3);
+        assert_eq!(sig[sh], 0, "unused bits");
+        (tbs, sig[sh + 1..sh + sl].to_vec())
+    }
+    struct Failing(Vec<u8>);
+    impl RemoteKeyPair for Failing {
+        fn public_key(&self) -> &[u8] { &self.0 }
+        fn sign(&self, _m: &[u8]) -> Result<Vec<u8>, Error> { Err(Error::RemoteKeyError) }
+        fn algorithm(&self) -> &'static SignatureAlgorithm { &PKCS_ED25519 }
+    }
+    for (alg, verify) in [(&PKCS_ECDSA_P256_SHA256, &ring::signature::ECDSA_P256_SHA256_ASN1 as &dyn ring::signature::VerificationAlgorithm),
+                          (&PKCS_ECDSA_P384_SHA384, &ring::signature::ECDSA_P384_SHA384_ASN1), (&PKCS_ED25519, &ring::signature::ED25519)] {
+        let key = KeyPair::generate_for(alg).unwrap();
+        let mut p = CertificateParams::new(vec!["replay.example".to_string()]).unwrap();
+        p.serial_number = Some(SerialNumber::from(7u64));
+        let cert = p.self_signed(&key).unwrap();
+        let (tbs, sig) = split(cert.der());
+        ring::signature::UnparsedPublicKey::new(verify, key.public_key_raw()).verify(&tbs, &sig)
+            .expect("the certificate's signature does not verify over its embedded to-be-signed bytes");
+        let csr = CertificateParams::new(vec!["replay.example".to_string()]).unwrap().serialize_request(&key).unwrap();
+        let (info, sig) = split(csr.der());
+        ring::signature::UnparsedPublicKey::new(verify, key.public_key_raw()).verify(&info, &sig)
+            .expect("the CSR's signature does not verify over its embedded certificationRequestInfo");
+    }
+    let failing = KeyPair::from_remote(Box::new(Failing(vec![1, 2, 3]))).unwrap();
+    assert!(CertificateParams::default().self_signed(&failing).is_err(), "a failing remote signer still produced a certificate");
+"""
+
+
 def program(cex: dict) -> str:
     op = cex.get("op")
     pre = ", ".join(f"({t}, {v})" for (t, v) in cex.get("pre", []))
@@ -106,6 +150,8 @@ def program(cex: dict) -> str:
                 "    assert_eq!(der[pos + 2], 0x30, \"directoryName [4] is not explicitly tagged: the Name SEQUENCE tag is missing\");\n")
     if op in ("issuer-view", "crl-guard"):
         body = ISSUING
+    if op == "sign-arm":
+        body = SIGNING
     return PRELUDE + "fn main() {\n" + body + "    println!(\"replay-ok\");\n}\n"
 
 
@@ -118,7 +164,7 @@ def replay(doc: dict) -> bool:
         (scratch / "src").mkdir()
         (scratch / "Cargo.toml").write_text(
             '[package]\nname = "mreplay"\nversion = "0.0.0"\nedition = "2021"\n[workspace]\n[dependencies]\n'
-            f'rcgen = {{ path = "{REPO}/rcgen" }}\ntime = {{ version = "0.3.6", default-features = false }}\n')
+            f'rcgen = {{ path = "{REPO}/rcgen" }}\ntime = {{ version = "0.3.6", default-features = false }}\nring = "0.17"\n')
         shutil.copy(REPO / "Cargo.lock", scratch / "Cargo.lock")
         (scratch / "src" / "main.rs").write_text(src)
         env = dict(os.environ)
